@@ -2015,12 +2015,35 @@ func runConcurrent(r *vlib.Run, trial int, rng *rand.Rand) {
 // (ONCE has no such phase: after its sync_response the queue is closed and the
 // RPC returns at once, there is no server-side idle period to observe.)
 
-func runPollIdle(r *vlib.Run, trial int, rng *rand.Rand) {
+// runPollIdle runs the trial at the drawn send timeout and, if the RPC ended
+// while the client was idle, again with the timeout (and the idle period)
+// scaled x6 and x30. "Idle" is what the harness can see: the sync_response was
+// recorded by the stream. The server's Send call returns, and its timer is
+// stopped, a moment later; on a starved machine that moment can outlast a
+// 50-150 ms timeout, and the timer then fires legitimately. A timer that is
+// wrongly left armed fires at every scale (the idle period is 3-4 timeouts at
+// every scale); a starved goroutine does not stay descheduled for seconds three
+// times in a row. Only a termination reproduced at all three scales is reported.
+func runPollIdle(r *vlib.Run, trial int, _ *rand.Rand) {
+	for i, scale := range []int{1, 6, 30} {
+		suspect := runPollIdleAt(r, trial, r.Rand("pollidle", trial), scale)
+		if !suspect {
+			if i > 0 {
+				r.Count("pollidle_terminations_not_reproduced_at_larger_timeout", 1)
+				r.Inconclusive("pollidle: an idle POLL stream ended with the send-timeout error once, but not with the timeout scaled up (starved machine: the server's Send had not returned yet when its short timer fired)")
+			}
+			return
+		}
+		r.Count(fmt.Sprintf("pollidle_suspected_terminations_at_timeout_scale_x%d", scale), 1)
+	}
+}
+
+func runPollIdleAt(r *vlib.Run, trial int, rng *rand.Rand, scale int) (suspect bool) {
 	if atomic.LoadInt32(&stuckSeen) >= 2 {
 		r.Count("rpcs_skipped_after_two_stuck_rpcs", 1)
 		return
 	}
-	timeout := time.Duration(50+rng.Intn(101)) * time.Millisecond
+	timeout := time.Duration(50+rng.Intn(101)) * time.Millisecond * time.Duration(scale)
 	idle := time.Duration(float64(timeout) * (3 + rng.Float64()))
 	w, origins := genWorld(rng, timeout)
 	if w.broken != "" {
@@ -2068,8 +2091,14 @@ func runPollIdle(r *vlib.Run, trial int, rng *rand.Rand) {
 		return
 	}
 	if obs.EndedIdle > 0 {
-		r.Violation("pollidle", trial, "poll-terminated-while-idle", fmt.Sprintf("%s: %s: the RPC ended on its own with status %v while the client was idle after the sync_response of round %d (round complete, no trigger outstanding, nothing being sent); the next poll trigger could not be answered", tag, s.describe()["mode"], obs.Err, obs.EndedIdle-1), wit())
+		if scale < 30 {
+			return true // to be confirmed at a larger timeout
+		}
+		r.Violation("pollidle", trial, "poll-terminated-while-idle", fmt.Sprintf("%s: %s: the RPC ended on its own with status %v while the client was idle after the sync_response of round %d (round complete, no trigger outstanding, nothing being sent); the next poll trigger could not be answered; reproduced with the send timeout scaled x6 and x30", tag, s.describe()["mode"], obs.Err, obs.EndedIdle-1), wit())
 		return
+	}
+	if scale > 1 {
+		return false // confirmation runs only answer the one question
 	}
 	if obs.EndedEarly && obs.Err != nil && strings.Contains(obs.Err.Error(), "timed out while sending") {
 		// The timeout fired while a round was being sent: with 50-150 ms this is
@@ -2110,6 +2139,7 @@ func runPollIdle(r *vlib.Run, trial int, rng *rand.Rand) {
 	if nontrivial {
 		r.Distinct(vlib.Hash("pollidle", req.String(), strings.Join(snaps[0].dump(), "\n"), timeout))
 	}
+	return false
 }
 
 // ---------------------------------------------------------------------------
